@@ -24,6 +24,24 @@ CLAIMED["C16"] = {
   "design_ref": "DESIGN.md section 4 C16, section 3 R-CAP",
 }
 
+
+_FAMILY_A = {
+  "C01": "kinematics (kinematics, com_pos, camlight, flex, tendon)",
+  "C02": "smooth dynamics (crb, factor/solve, com_vel, passive, rne, fwd_acceleration)",
+  "C03": "actuation (transmission, actuator force, activation integration)",
+  "C04": "collision (broadphase, narrowphase, contact writer) plus agreement of the collision routing tables",
+  "C05": "constraint assembly (row builders)",
+  "C07": "sensor stages and energy",
+  "C08": "integrators and state advance",
+}
+for _p, _w in _FAMILY_A.items():
+  CLAIMED[_p] = {
+    "text": f"Structural necessary conditions only, for {_w}: every launch reachable from the stage binds each schema-named kernel parameter to the same-named Model/Data field (argument-order conformance over all bindings), read-only Data parameters are not written, and no enum member the stage dispatches on lost its handler relative to the confirmed baseline. Numerical agreement with MuJoCo is NOT decided (no static argument bounds float results).",
+    "note": STATIC_NOTE,
+    "technique": "launch-binding conformance over resolved call sites + enum-handler exhaustiveness against a confirmed baseline (R-BIND, R-DISPATCH)",
+    "design_ref": "DESIGN.md section 4 Family A",
+  }
+
 NOT_APPLICABLE = {
   "C06": "optimality of an iterative float solve is a runtime quantity; no structural necessary condition beyond what C24/C25 decide",
   "C18": "equivalence of broadphases depends on geometric conservativeness of numeric filters and sort/scan arithmetic; a sibling text-diff of the NXN/SAP kernels would alarm on harmless refactors",
